@@ -504,12 +504,17 @@ func main() {
 	one := flag.String("replay", "", "replay one case: ports:<seed> | nested:<seed> | chain:<seed>[:big]")
 	sniffIf := flag.String("sniff", "", "internal: wire log on this interface")
 	proto := flag.String("proto", "tcp", "internal: what the wire log records")
+	listenPorts := flag.String("listen", "", "internal: accept connections on these ports and log them")
 	sx := flag.String("e2e", "", "end-to-end runs with this sx binary in private network namespaces")
-	ne2e := flag.Int("ne2e", 7, "number of end-to-end runs")
+	ne2e := flag.Int("ne2e", 8, "number of end-to-end runs")
 	e2eSet := flag.String("e2eset", "coverage", "coverage | refuse (non-IPv4 targets, for C02)")
 	flag.Parse()
 	if *sniffIf != "" {
 		sniff(*sniffIf, *proto, *out)
+		return
+	}
+	if *listenPorts != "" {
+		listen(*listenPorts, *out)
 		return
 	}
 	baseGoroutines = runtime.NumGoroutine()
